@@ -502,6 +502,13 @@ def handle (s : Sess) (line : String) : Sess × List String :=
     match doCache s rest with
     | some (s', out) => (s', out)
     | none => (s, ["bad-op cache", "end"])
+  | "pick" :: rest =>
+    let m := kvs rest
+    match (look m "ls").bind parseNatList, (look m "peaks").bind parseKeyTable, (look m "ind").bind parseNatList with
+    | some ls, some tbl, some ind =>
+      let peak : Nat → Int := fun i => ((tbl.find? (fun kv => kv.1 == i)).map (·.2)).getD 0
+      (s, [s!"picked {optNat (Hub.pickLine ls peak ind)}", "end"])
+    | _, _, _ => (s, ["bad-op pick", "end"])
   | "plot" :: rest => simple s (doPlot s (kvs rest)) "plot"
   | "hub" :: rest => simple s (doHub s (kvs rest)) "hub"
   | "eq" :: rest => simple s (doEq (kvs rest)) "eq"
